@@ -190,6 +190,8 @@ def build(prop, seed):
             config['children'].pop('%s:%s' % (app['name'], pname), None)
             # a single copy, on the instance the election rule picks when everybody boots together
             config['supvisors']['core_identifiers'] = []
+            config['supvisors']['synchro_options'] = [o for o in config['supvisors']['synchro_options']
+                                                      if o != 'CORE'] or ['STRICT', 'TIMEOUT']
             first = min(s_['nick'] for s_ in config['instances'])
             for spec in config['instances']:
                 spec.pop('disabled', None)
